@@ -26,8 +26,9 @@ ASSUMPTIONS = [
     "loop.getaddrinfo for a numeric host/port returns that host text and port (contracts/looplib.py); the textual form of an IP address is in one-to-one correspondence with the address",
     "transport.sendto is a recorder; 'subscribed at that time' = when the round's task runs (the set is read without an intervening await)",
 ]
-BOUNDED = ["an eventgroup with two events and up to two subscribed endpoints (IPv4 and IPv6; addresses, ports, event ids, values, prior session state symbolic)"]
-EXPLANATION = "addressing, payloads, per-destination session ids and the subscriber set are symbolic; the number of events and endpoints is bounded in shape (bounded_stand_ins)"
+BOUNDED = []
+LEVEL = "proof"
+EXPLANATION = "addressing, payloads and per-destination session ids are symbolic; the eventgroup has arbitrarily many events and arbitrarily many subscribed endpoints (lazily materialised dict / set); the notification loop, the per-endpoint fan-out and the cyclic loop are verified by loop / comprehension contracts"
 
 
 class _Svc(S.SimpleService):
@@ -47,8 +48,26 @@ def addr_of(ep):
     return (str(ep.address), ep.port)
 
 
+def _gen_event_id(vc, name):
+    return vc.int(name, 0, 0x7FFF)
+
+
+def _gen_value(vc, name, key):
+    v = vc.bytes(name)
+    vc.assume(len(v) + 8 <= 0xFFFFFFFF)
+    return v
+
+
+def _gen_endpoint_key(vc, name):
+    return gen_endpoint(vc, name)
+
+
 class EWorld:
-    def __init__(self, vc, name="e", endpoints=2):
+    """a service endpoint with one eventgroup that has ARBITRARILY MANY events (values:
+    lazily materialised dict), ARBITRARILY MANY subscribed endpoints (lazily materialised set)
+    and an arbitrary per-destination session table"""
+
+    def __init__(self, vc, name="e"):
         self.vc = vc
         self.loop = vc.install_loop(LL.FakeLoop(vc.real(name + ".now", 0)))
         self.svc = _Svc(vc.int(name + ".instance_id", 0, 0xFFFF))
@@ -60,31 +79,12 @@ class EWorld:
         self.svc.transport = tr
         self.group = S.SimpleEventgroup(self.svc, vc.int(name + ".eventgroup_id", 0, 0xFFFF))
         self.svc.register_eventgroup(self.group)
-        self.ev1 = vc.int(name + ".event1", 0, 0x7FFF)
-        self.ev2 = vc.int(name + ".event2", 0, 0x7FFF)
-        vc.assume(self.ev1 != self.ev2)
-        self.val1 = vc.bytes(name + ".value1")
-        self.val2 = vc.bytes(name + ".value2")
-        vc.assume(len(self.val1) + 8 <= 0xFFFFFFFF and len(self.val2) + 8 <= 0xFFFFFFFF)
-        self.group.values[self.ev1] = self.val1
-        self.group.values[self.ev2] = self.val2
-        self.eps = [gen_endpoint(vc, name + ".ep" + str(i)) for i in range(endpoints)]
-        if endpoints == 2:
-            vc.assume(self.eps[0] != self.eps[1])
-        self.subscribed = []
-        for i, ep in enumerate(self.eps):
-            if vc.bool(name + ".ep" + str(i) + ".subscribed"):
-                self.group.subscribed_endpoints.add(ep)
-                self.subscribed.append(ep)
-        if self.subscribed:
-            self.group.has_clients.set()
-        # prior per-destination session state (arbitrary, in range)
-        self.prior = {}
-        for i, ep in enumerate(self.eps):
-            if vc.bool(name + ".ep" + str(i) + ".has_session"):
-                st = (vc.bool(name + ".ep" + str(i) + ".flag"), vc.int(name + ".ep" + str(i) + ".sid", 1, 0xFFFF))
-                self.svc.session_storage.outgoing[addr_of(ep)] = st
-                self.prior[i] = st
+        self.group.values = vc.lazy_dict(name + ".values", _gen_value, _gen_event_id)
+        self.group.subscribed_endpoints = vc.lazy_set(name + ".subscribed", _gen_endpoint_key)
+        # class invariant of SimpleEventgroup: the flag is set exactly while somebody is subscribed
+        self.group.has_clients.flag = len(self.group.subscribed_endpoints) > 0
+        self.sa, self.sb = SS.gen_storage(vc, name + ".sessions")
+        self.svc.session_storage = self.sa
 
     def notification(self, event_id, value, session_id):
         return SH.enc_someip(
@@ -101,115 +101,214 @@ class EWorld:
             )
         )
 
-    def expected_datagram(self, i, events):
-        """one datagram: the notifications of `events` in order, session ids continuing the
-        destination's sequence (1.. skipping 0)"""
-        cur = self.prior.get(i, (True, 1))
-        buf = b""
-        for ev in events:
-            value = self.val1 if ev == self.ev1 else self.val2
-            buf = buf + self.notification(ev, value, cur[1])
-            cur = SS.next_session(cur)
-        return buf
+
+def _gen_bytearray(vc, name):
+    return bytearray(vc.bytes(name))
 
 
-def ob_notify_single(vc):
-    w = EWorld(vc, endpoints=1)
-    order = vc.choice("events", ("both", "swapped", "first", "none"))
-    events = {"both": [w.ev1, w.ev2], "swapped": [w.ev2, w.ev1], "first": [w.ev1], "none": []}[order]
-    log = []
-    vc.drive(vc.body(S.SimpleEventgroup._notify_single)(w.group, w.eps[0], list(events), "test"), log)
-    if order == "none":
-        vc.cover("no-events")
-        vc.check_eq(len(w.sent), 0, "_notify_single.no_events_sends_nothing")
-        return
-    vc.cover("events")
-    vc.check_eq(len(w.sent), 1, "_notify_single.one_datagram")
-    if len(w.sent) == 1:
-        vc.check_eq(w.sent[0][1], addr_of(w.eps[0]), "_notify_single.addressed_to_the_endpoint")
-        vc.check_eq(w.sent[0][0], w.expected_datagram(0, events), "_notify_single.notifications_with_service_event_version_value_and_consecutive_session_ids")
+def _ns_init(vc, v):
+    vc.stash("ns.init", v)
 
 
-def ob_subscribe_unsubscribe(vc):
-    """subscribe: the endpoint joins, and one initial notification per event with the
-    current values goes to it (and only it); unsubscribe: it leaves; the 'has clients'
-    flag is set exactly while somebody is subscribed"""
-    w = EWorld(vc, endpoints=2)
-    vc.assume(w.eps[0] not in w.subscribed)
-    n_tasks = len(w.loop.tasks)
-    vc.body(S.SimpleEventgroup.subscribe)(w.group, w.eps[0])
-    vc.check(w.eps[0] in w.group.subscribed_endpoints and w.group.has_clients.is_set(), "subscribe.joins")
-    vc.check_eq(len(w.loop.tasks), n_tasks + 1, "subscribe.one_initial_notification_task")
-    vc.check_eq(len(w.sent), 0, "subscribe.sends_through_the_task")
-    if len(w.loop.tasks) == n_tasks + 1:
-        vc.drive(w.loop.tasks[n_tasks].coro, [])
-        vc.check_eq(len(w.sent), 1, "subscribe.initial_notification_is_one_datagram")
-        if len(w.sent) == 1:
-            vc.check_eq(w.sent[0][1], addr_of(w.eps[0]), "subscribe.initial_notification_to_the_new_subscriber_only")
-            vc.check_eq(w.sent[0][0], w.expected_datagram(0, [w.ev1, w.ev2]), "subscribe.initial_notification_per_event_with_current_value")
-    vc.body(S.SimpleEventgroup.unsubscribe)(w.group, w.eps[0])
-    vc.check(w.eps[0] not in w.group.subscribed_endpoints, "unsubscribe.leaves")
-    vc.check_eq(w.group.has_clients.is_set(), len(w.subscribed) > 0, "unsubscribe.flag_cleared_iff_nobody_left")
-    o = vc.outcome(vc.body(S.SimpleEventgroup.unsubscribe), w.group, w.eps[0])
-    vc.check(vc.is_exc(o, KeyError), "unsubscribe.unknown_endpoint_is_an_error")
-    vc.check_eq(w.group.has_clients.is_set(), len(w.subscribed) > 0, "unsubscribe.failed_unsubscribe_leaves_the_flag")
+def _ns_head(vc, v, entering):
+    vc.stash("ns.entering", entering)
+    vc.stash("ns.head", v)
 
 
-def ob_notify_once(vc):
-    """an explicit round goes to exactly the endpoints subscribed when it runs, once each;
-    nothing when there are none"""
-    w = EWorld(vc, endpoints=2)
-    n_tasks = len(w.loop.tasks)
-    vc.body(S.SimpleEventgroup.notify_once)(w.group, [w.ev1])
-    if not w.subscribed:
-        vc.cover("nobody")
-        vc.check_eq(len(w.loop.tasks), n_tasks, "notify_once.no_subscribers_nothing_scheduled")
-        vc.check_eq(len(w.sent), 0, "notify_once.no_subscribers_nothing_sent")
-        return
-    vc.check_eq(len(w.loop.tasks), n_tasks + 1, "notify_once.one_round_task")
-    if len(w.loop.tasks) != n_tasks + 1:
-        return
-    vc.drive(w.loop.tasks[n_tasks].coro, [])
-    vc.check_eq(len(w.sent), len(w.subscribed), "notify_once.one_datagram_per_subscriber")
-    for i, ep in enumerate(w.eps):
-        got = [d for d in w.sent if d[1] == addr_of(ep)]
-        if ep in w.subscribed:
-            vc.cover("subscriber")
-            vc.check_eq(len(got), 1, "notify_once.each_subscriber_once")
-            if len(got) == 1:
-                vc.check_eq(got[0][0], w.expected_datagram(i, [w.ev1]), "notify_once.notification_content_and_session_id")
-        else:
-            vc.check_eq(len(got), 0, "notify_once.non_subscribers_get_nothing")
+def _ns_post(vc, v):
+    vc.stash("ns.post", v)
+
+
+def _na_head(vc, v, entering):
+    vc.stash("na.entering", entering)
+
+
+def _na_post(vc, v):
+    vc.stash("na.post", v)
 
 
 def _cyc_head(vc, v, entering):
     vc.stash("cyclic.iteration", entering)
 
 
-LOOPS = {("someip.service.SimpleEventgroup.cyclic_notify", 0): {"head": _cyc_head}}
+LOOPS = {
+    ("someip.service.SimpleEventgroup._notify_single", 0): {"havoc": {"msgbuf": _gen_bytearray}, "init": _ns_init, "head": _ns_head, "post": _ns_post},
+    ("someip.service.SimpleEventgroup._notify_all", "comp", 0): {"head": _na_head, "post": _na_post},
+    ("someip.service.SimpleEventgroup.cyclic_notify", 0): {"head": _cyc_head},
+}
+
+
+def _drive_single(vc, w, ep, events):
+    """drive _notify_single(ep, events) and state its loop obligations: (init) the datagram
+    buffer starts empty; (step) an arbitrary event of the round appends exactly its
+    notification -- service id, 0x8000|event id, major version, NOTIFICATION, the event's
+    current value -- with the next session id of this destination; (exit) one datagram with
+    everything collected goes to the endpoint's address iff there is anything to send"""
+    log = []
+    vc.arm_cut(S.SimpleEventgroup._notify_single, 0)
+    o = vc.outcome(vc.drive, vc.body(S.SimpleEventgroup._notify_single)(w.group, ep, events, "test"), log)
+    vc.check(o.kind != "raise", "_notify_single.never_raises")
+    if vc.native:
+        return o
+    init = vc.stashed("ns.init")
+    if init is None:
+        return o
+    vc.check_eq(len(init["msgbuf"]), 0, "_notify_single.init.empty_buffer")
+    vc.check_eq(init["addr"], addr_of(ep), "_notify_single.destination_is_the_endpoints_address")
+    head = vc.stashed("ns.head")
+    if vc.stashed("ns.entering"):
+        ev = head["event_id"]
+        if o.kind == "cut":
+            vc.cover("event")
+            post = vc.stashed("ns.post")
+            cur = w.sb.outgoing.get(addr_of(ep), SS.default_session())
+            SS.assign_outgoing(w.sb, addr_of(ep))
+            vc.check_eq(post["msgbuf"], head["msgbuf"] + w.notification(ev, w.group.values[ev], cur[1]), "_notify_single.step.appends_the_notification_with_the_destinations_next_session_id")
+            vc.check_eq(w.sa.outgoing, w.sb.outgoing, "_notify_single.step.one_session_id_per_notification")
+            vc.check_eq(len(w.sent), 0, "_notify_single.step.nothing_sent_before_the_round_is_complete")
+    else:
+        vc.cover("round-complete")
+        buf = head["msgbuf"]
+        if len(buf) > 0:
+            vc.check_eq(w.sent, [(buf, addr_of(ep))], "_notify_single.exit.one_datagram_with_all_notifications_to_the_endpoint")
+        else:
+            vc.check_eq(w.sent, [], "_notify_single.exit.nothing_to_send_sends_nothing")
+    return o
+
+
+def ob_notify_single(vc):
+    w = EWorld(vc)
+    ep = gen_endpoint(vc, "ep")
+    events = vc.seq("events", _gen_event_id)
+    o = _drive_single(vc, w, ep, events)
+    if vc.native:
+        exp = b""
+        cur = w.sb.outgoing.get(addr_of(ep), SS.default_session())
+        ok = True
+        for ev in events:
+            if ev not in w.group.values:
+                ok = False
+                break
+            exp = exp + w.notification(ev, w.group.values[ev], cur[1])
+            cur = SS.next_session(cur)
+        if ok:
+            vc.check_eq(w.sent, [(exp, addr_of(ep))] if exp else [], "_notify_single.whole_round")
+
+
+def ob_subscribe_unsubscribe(vc):
+    """subscribe: the endpoint joins and the initial notification task notifies it (and only
+    it) with all events; unsubscribe: it leaves; the 'has clients' flag is set exactly while
+    somebody is subscribed"""
+    w = EWorld(vc)
+    ep = gen_endpoint(vc, "ep")
+    vc.assume(ep not in w.group.subscribed_endpoints)
+    n_before = len(w.group.subscribed_endpoints)
+    n_tasks = len(w.loop.tasks)
+    vc.body(S.SimpleEventgroup.subscribe)(w.group, ep)
+    vc.check(ep in w.group.subscribed_endpoints and w.group.has_clients.is_set(), "subscribe.joins")
+    vc.check_eq(len(w.group.subscribed_endpoints), n_before + 1, "subscribe.others_stay_subscribed")
+    vc.check_eq(len(w.loop.tasks), n_tasks + 1, "subscribe.one_initial_notification_task")
+    vc.check_eq(len(w.sent), 0, "subscribe.sends_through_the_task")
+    if len(w.loop.tasks) == n_tasks + 1 and not vc.native:
+        info = vc.coro_info(w.loop.tasks[n_tasks].coro)
+        vc.check_eq(info[0], "someip.service.SimpleEventgroup._notify_single", "subscribe.initial_task_notifies_one_endpoint")
+        vc.check(info[1][1] is ep or info[2].get("endpoint") is ep, "subscribe.initial_notification_to_the_new_subscriber_only")
+    vc.body(S.SimpleEventgroup.unsubscribe)(w.group, ep)
+    vc.check(ep not in w.group.subscribed_endpoints, "unsubscribe.leaves")
+    vc.check_eq(len(w.group.subscribed_endpoints), n_before, "unsubscribe.others_stay_subscribed")
+    vc.check_eq(w.group.has_clients.is_set(), n_before > 0, "unsubscribe.flag_cleared_iff_nobody_left")
+    o = vc.outcome(vc.body(S.SimpleEventgroup.unsubscribe), w.group, ep)
+    vc.check(vc.is_exc(o, KeyError), "unsubscribe.unknown_endpoint_is_an_error")
+    vc.check_eq(w.group.has_clients.is_set(), n_before > 0, "unsubscribe.failed_unsubscribe_leaves_the_flag")
+
+
+def ob_initial_notification(vc):
+    """the task created by subscribe() notifies all events (the keys of `values` at that
+    time): an arbitrary one of them is notified with its current value"""
+    w = EWorld(vc)
+    ep = gen_endpoint(vc, "ep")
+    _drive_single(vc, w, ep, w.group.values.keys())
+
+
+def ob_notify_once(vc):
+    """an explicit round: nothing when nobody is subscribed; otherwise one task that starts
+    exactly one _notify_single(endpoint, events) for an arbitrary subscribed endpoint (and so
+    for each), with the requested events"""
+    w = EWorld(vc)
+    events = [vc.int("event", 0, 0x7FFF)]
+    n_tasks = len(w.loop.tasks)
+    vc.body(S.SimpleEventgroup.notify_once)(w.group, events)
+    if not w.group.has_clients.is_set():
+        vc.cover("nobody")
+        vc.check_eq(len(w.loop.tasks), n_tasks, "notify_once.no_subscribers_nothing_scheduled")
+        vc.check_eq(len(w.sent), 0, "notify_once.no_subscribers_nothing_sent")
+        return
+    vc.check_eq(len(w.loop.tasks), n_tasks + 1, "notify_once.one_round_task")
+    if len(w.loop.tasks) != n_tasks + 1 or vc.native:
+        return
+    info = vc.coro_info(w.loop.tasks[n_tasks].coro)
+    vc.check_eq(info[0], "someip.service.SimpleEventgroup._notify_all", "notify_once.round_task_notifies_all")
+    vc.check(info[2].get("events") is events, "notify_once.round_with_the_requested_events")
+
+
+def ob_notify_all(vc):
+    """_notify_all(events): for an arbitrary subscribed endpoint exactly one
+    _notify_single(endpoint, events) is started, and all of them are awaited once (gather)"""
+    w = EWorld(vc)
+    events = [vc.int("event", 0, 0x7FFF)]
+    log = []
+    if vc.native:
+        # a replay runs the whole round on the real code: one notification per subscriber
+        started = []
+
+        async def single(endpoint, events=None, label=None):
+            started.append((endpoint, events))
+
+        vc.stub(w.group, "_notify_single", single)
+        members = set(w.group.subscribed_endpoints)
+        vc.drive(w.group._notify_all(events, "test"), log)
+        vc.check_eq(sorted([repr(e) for e, _ in started]), sorted([repr(e) for e in members]), "_notify_all.one_notification_per_subscribed_endpoint")
+        vc.check(all(ev is events for _, ev in started), "_notify_all.with_the_rounds_events")
+        return
+    o = vc.outcome(vc.drive, vc.body(S.SimpleEventgroup._notify_all)(w.group, events, "test"), log)
+    vc.check(o.kind != "raise", "_notify_all.never_raises")
+    if vc.stashed("na.entering"):
+        vc.cover("endpoint")
+        post = vc.stashed("na.post")
+        info = vc.coro_info(post["$elt"])
+        vc.check_eq(info[0], "someip.service.SimpleEventgroup._notify_single", "_notify_all.one_notification_per_subscribed_endpoint")
+        vc.check(info[1][1] is post["ep"], "_notify_all.addressed_to_that_endpoint")
+        vc.check(info[2].get("events") is events, "_notify_all.with_the_rounds_events")
+        vc.check(post["ep"] in w.group.subscribed_endpoints, "_notify_all.only_subscribed_endpoints")
+    else:
+        vc.cover("round-started")
+        vc.check(o.kind == "ret", "_notify_all.returns_after_the_round")
 
 
 def ob_cyclic_notify(vc):
     """one arbitrary cyclic round: waits for a subscriber, then exactly one interval, then
-    notifies every current subscriber once with all events"""
-    w = EWorld(vc, endpoints=2)
-    vc.assume(len(w.subscribed) > 0)
+    starts _notify_all with all events"""
+    w = EWorld(vc)
+    vc.assume(w.group.has_clients.is_set())
     interval = vc.real("interval", 0)
     vc.assume(interval > 0)
+    rounds = vc.stub(w.group, "_notify_all", _fake_round)
     log = []
     vc.arm_cut(S.SimpleEventgroup.cyclic_notify, 0)
     o = vc.outcome(vc.drive, vc.body(S.SimpleEventgroup.cyclic_notify)(w.group, interval), log)
     vc.check(o.kind == "cut", "cyclic_notify.keeps_running")
     vc.check_eq(log, [("sleep", interval)], "cyclic_notify.one_interval_before_the_round")
-    vc.check_eq(len(w.sent), len(w.subscribed), "cyclic_notify.one_datagram_per_subscriber")
-    for i, ep in enumerate(w.eps):
-        got = [d for d in w.sent if d[1] == addr_of(ep)]
-        if ep in w.subscribed and len(got) == 1:
-            vc.check_eq(got[0][0], w.expected_datagram(i, [w.ev1, w.ev2]), "cyclic_notify.all_events_with_current_values")
+    vc.check_eq(len(rounds), 1, "cyclic_notify.one_round_per_interval")
+
+
+async def _fake_round(events=None, label=None):
+    return None
 
 
 def gen_subscription(vc, w, name):
     shape = vc.choice(name + ".endpoints", ("one", "none", "two"))
+    w.eps = [gen_endpoint(vc, name + ".ep0"), gen_endpoint(vc, name + ".ep1")]
+    vc.assume(w.eps[0] != w.eps[1])
     eps = {"one": [w.eps[0]], "none": [], "two": [w.eps[0], w.eps[1]]}[shape]
     known = vc.bool(name + ".known_eventgroup")
     gid = w.group.id
@@ -222,9 +321,9 @@ def gen_subscription(vc, w, name):
 def ob_client_subscribed(vc):
     """a subscription naming other than exactly one endpoint, or an unknown eventgroup, is
     refused (NakSubscription) and changes nothing; otherwise the endpoint is subscribed"""
-    w = EWorld(vc, endpoints=2)
-    vc.assume(w.eps[0] not in w.subscribed)
+    w = EWorld(vc)
     sub, shape, known = gen_subscription(vc, w, "sub")
+    vc.assume(w.eps[0] not in w.group.subscribed_endpoints)
     before = len(w.group.subscribed_endpoints)
     n_tasks = len(w.loop.tasks)
     o = vc.outcome(vc.body(S.SimpleService.client_subscribed), w.svc, sub, vc.opaque("source", "addr"))
@@ -241,17 +340,19 @@ def ob_client_subscribed(vc):
 
 
 def ob_client_unsubscribed(vc):
-    w = EWorld(vc, endpoints=2)
-    vc.assume(w.eps[0] in w.subscribed)
+    w = EWorld(vc)
+    w.eps = [gen_endpoint(vc, "ep0")]
+    vc.assume(w.eps[0] in w.group.subscribed_endpoints)
+    n_before = len(w.group.subscribed_endpoints)
     sub = SD.EventgroupSubscription(service_id=w.svc.service_id, instance_id=w.svc.instance_id, major_version=w.svc.version_major, id=w.group.id, counter=0, ttl=3, endpoints=frozenset([w.eps[0]]))
     o = vc.outcome(vc.body(S.SimpleService.client_unsubscribed), w.svc, sub, vc.opaque("source", "addr"))
     vc.check(o.kind == "ret", "client_unsubscribed.returns")
     vc.check(w.eps[0] not in w.group.subscribed_endpoints, "client_unsubscribed.endpoint_removed")
-    vc.check_eq(w.group.has_clients.is_set(), len(w.subscribed) > 1, "client_unsubscribed.flag_cleared_iff_nobody_left")
+    vc.check_eq(w.group.has_clients.is_set(), n_before > 1, "client_unsubscribed.flag_cleared_iff_nobody_left")
     o2 = vc.outcome(vc.body(S.SimpleService.client_unsubscribed), w.svc, sub, vc.opaque("source2", "addr"))
     vc.check(o2.kind == "ret", "client_unsubscribed.unknown_endpoint_is_tolerated")
-    vc.check_eq(w.group.has_clients.is_set(), len(w.subscribed) > 1, "client_unsubscribed.repeated_unsubscribe_leaves_the_flag")
+    vc.check_eq(w.group.has_clients.is_set(), n_before > 1, "client_unsubscribed.repeated_unsubscribe_leaves_the_flag")
 
 
-HARNESSES = [SH.ob_build_refines, SS.ob_assign_outgoing_refines, ob_notify_single, ob_subscribe_unsubscribe, ob_notify_once, ob_cyclic_notify, ob_client_subscribed, ob_client_unsubscribed]
-EXPECT_COVERS = {"ob_notify_single": ["no-events", "events"], "ob_notify_once": ["nobody", "subscriber"], "ob_client_subscribed": ["accepted", "refused"]}
+HARNESSES = [SH.ob_build_refines, SS.ob_assign_outgoing_refines, ob_notify_single, ob_initial_notification, ob_subscribe_unsubscribe, ob_notify_once, ob_notify_all, ob_cyclic_notify, ob_client_subscribed, ob_client_unsubscribed]
+EXPECT_COVERS = {"ob_notify_single": ["event", "round-complete"], "ob_notify_once": ["nobody"], "ob_notify_all": ["endpoint", "round-started"], "ob_client_subscribed": ["accepted", "refused"]}
